@@ -119,7 +119,7 @@ def scalar_family():
                 lambda b: [b.classes['K'](e, o) for e in b.classes['E'] for o in (None, e)]))
     for kind in ('S', 'Sy', 'Ss'):
         fam.append(('strlike-' + kind, {'classes': BASE, 'root': ('dict', ('cls', kind), ('list', ('cls', kind)))},
-                    lambda b, kind=kind: [{b.classes[kind](s): [b.classes[kind](s), b.classes[kind]('x')]} for s in ('a', '1', 'true', '', 'a b', 'k: v', '1e5')]))
+                    lambda b, kind=kind: [{b.classes[kind](s): [b.classes[kind](s), b.classes[kind]('x')]} for s in ('a', '1', 'true', '', 'a b', 'k: v', '1e5', 'x\U0001F600y')]))
     fam.append(('nested', {'classes': BASE + [_K([('i', ('cls', 'In')), ('l', ('list', ('cls', 'In')), None),
                                                    ('d', ('dict', 'str', ('cls', 'In')), None)])], 'root': ('cls', 'K')},
                 lambda b: [b.classes['K'](b.classes['In'](1), [b.classes['In'](2, 'x'), b.classes['In'](3)], {'k': b.classes['In'](4, '1')}),
